@@ -24,6 +24,8 @@ type PathSample struct {
 	Outcome  string            `json:"outcome"`
 	Model    map[string]string `json:"model,omitempty"`
 	Chooses  []int             `json:"chooses,omitempty"`
+	ChooseK  map[string]int    `json:"choosek,omitempty"`
+	Yields   []string          `json:"yields,omitempty"`
 	Events   []string          `json:"events,omitempty"`
 	Observes []string          `json:"observes,omitempty"`
 	ObservesConcrete []string `json:"observes_concrete,omitempty"`
@@ -203,7 +205,7 @@ func main() {
 					passing++
 					if len(res.Samples) < *nSamples*8 {
 						res.Samples = append(res.Samples, PathSample{Prefix: picks(r.Trace), Outcome: r.Outcome, Model: r.Model,
-							Chooses: r.Chooses, Events: r.Events, Observes: r.Observes, ObservesConcrete: r.ObservesConcrete, Shapes: r.Shapes, Decls: r.Decls})
+							Chooses: r.Chooses, ChooseK: r.ChooseK, Yields: r.Yields, Events: r.Events, Observes: r.Observes, ObservesConcrete: r.ObservesConcrete, Shapes: r.Shapes, Decls: r.Decls})
 					}
 				}
 				// push alternatives for choice points discovered beyond the prefix
